@@ -358,14 +358,11 @@ def pair_stats(table):
 
 def impact_ops(pool, labels, hits_examples, wd):
     """The collections the statement mentions, run by the harness on one example tuple per known finding."""
-    ops, meta = [], []
+    ops, meta = [{"op": "sort", "xs": list(range(len(pool)))}], [("whole-pool", "-", "sort", ["<all %d values>" % len(pool)])]
     for (cls, law), f in sorted(hits_examples.items()):
-        xs = sorted(set(i - 1 for i in f["tup"]))
         for op in ("sort", "btree", "hashmap"):
             ops.append({"op": op, "xs": [i - 1 for i in f["tup"]]})
             meta.append((cls, law, op, [labels[i - 1] for i in f["tup"]]))
-    ops.append({"op": "sort", "xs": list(range(len(pool)))})
-    meta.append(("whole-pool", "-", "sort", ["<all %d values>" % len(pool)]))
     return ops, meta
 
 
@@ -423,7 +420,7 @@ def run(tier, out):
             law_instances_broken_by_code=len(fails), broken_by_law=dict(by_law),
             broken_and_covered_by_known_findings=len(fails) - len(viol), unexcused=len(viol),
             model_drift_cells=len(drift), cells_compared_with_M=n * n, broken_only_in_M=len(monly),
-            impact_on_collections=impact[:40], exhaustive=True, tlc_wall_s=round(r.wall, 1),
+            impact_on_collections=impact[:64], exhaustive=True, tlc_wall_s=round(r.wall, 1),
             checker_cmd="tlc Gen_ValueOrder (pool) ; h_core valueorder (observe) ; tlc MC_ValueOrder INVARIANT Report (laws P, model M, Conform)")
     rnd = __import__("random").Random(core.seed())
     for _ in range(3):
